@@ -1,7 +1,7 @@
 """Helpers shared by the rule modules."""
 from fractions import Fraction
 from sa import guards as G
-from sa.sym import SELF, is_const, pretty, walk, root_field, is_heap_path, mk_cmp, mk_not, mk_bool
+from sa.sym import SELF, contains, is_const, pretty, walk, root_field, is_heap_path, mk_cmp, mk_not, mk_bool
 from sa.model import AnalysisError, EnumVal
 from sa.paths import runs_of
 
@@ -162,7 +162,7 @@ def runs(ctx, func, **kw):
     key = (func.qual, tuple(sorted((k, str(v)) for k, v in kw.items())))
     cache = ctx.__dict__.setdefault("_runs_cache", {})
     if key not in cache:
-        cache[key] = [r for r in runs_of(ctx.prog, func, **kw) if not contradictory(r)]
+        cache[key] = [_canon_calls(ctx, func, _canon_pgn(ctx, func, r)) for r in runs_of(ctx.prog, func, **kw) if not contradictory(r)]
     return cache[key]
 
 
@@ -394,3 +394,88 @@ def canon_from_bytes(s):
                 return ("le_uint", data)
         return None
     return G.subst(s, fn)
+
+
+def _canon_pgn(ctx, func, run):
+    """notify of the data link layers: a ParameterGroupNumber constructed directly from the fields of the received identifier
+    (data page = pgn bit 16, PF = bits 8..15, PS = bits 0..7) is the same object as a default one filled by from_message_id(mid):
+    after checking that in the known-bits domain the run is rewritten to the canonical spelling the notify rules read"""
+    if func.name != "notify" or func.cls is None or func.cls.name not in ("J1939_21", "J1939_22"):
+        return run
+    from sa.bits import BV, BitEval
+    MID = ("call", ("clsref", "MessageId"), (), (("can_id", ("p", "can_id")),))
+    PGNF = ("attr", MID, "parameter_group_number")
+    PG = ("call", ("clsref", "ParameterGroupNumber"), (), ())
+    cands = set()
+    for rec in run.recs:
+        syms = ([rec.cond] if rec.cond is not None else []) + [x for e in rec.effects for x in (e.target, e.value) if isinstance(x, tuple)]
+        for s_ in syms:
+            for x in walk(s_):
+                if x[0] == "call" and x[1] == ("clsref", "ParameterGroupNumber") and len(x[2]) == 3 and not x[3] and contains(x, PGNF):
+                    cands.add(x)
+    if len(cands) != 1:
+        return run
+    X = cands.pop()
+    be = BitEval(lambda s_: BV.input("pgn", 18) if s_ == PGNF else None)
+    try:
+        from sa.objeval import construct
+        o = construct(ctx.prog, "ParameterGroupNumber", X[2])       # the constructor applies its own masks
+        dp, pf, ps = (be.ev(o.get(n_)) for n_ in ("data_page", "pdu_format", "pdu_specific"))
+    except AnalysisError:
+        return run
+    ok = dp.window(0, 1) == [("b", "pgn", 16)] and dp.width() is not None and dp.width() <= 1 and \
+        pf.window(0, 8) == [("b", "pgn", 8 + i) for i in range(8)] and pf.width() is not None and pf.width() <= 8 and \
+        ps.window(0, 8) == [("b", "pgn", i) for i in range(8)] and ps.width() is not None and ps.width() <= 8
+    if not ok:
+        return run
+
+    def fn(x):
+        return PG if x == X else None
+    for rec in run.recs:
+        if rec.cond is not None:
+            rec.cond = G.renorm(G.subst(rec.cond, fn))
+        for e in rec.effects:
+            if isinstance(e.target, tuple):
+                e.target = G.subst(e.target, fn)
+            if isinstance(e.value, tuple):
+                e.value = G.subst(e.value, fn)
+    run.pgn_from_mid = True
+    return run
+
+
+def _canon_calls(ctx, func, run):
+    """calls of the package's own functions spelt with keyword arguments are rewritten to the positional spelling (when the
+    keywords, after the positional ones, form a complete prefix of the callee's parameter list): the rules read arguments by position"""
+    cg = ctx.__dict__.get("_cg") if "_cg" in ctx.__dict__ else None
+    try:
+        cg = ctx.cg
+    except Exception:
+        return run
+    for rec in run.recs:
+        for e in rec.effects:
+            if e.kind != "call" or not isinstance(e.value, tuple) or len(e.value) < 4 or not e.value[3] or any(k == "**" for k, _ in e.value[3]):
+                continue
+            if e.value[1][0] == "clsref":
+                continue        # constructors: partial keyword bindings are read by keyword
+            try:
+                targets, kind = cg.resolve(e.value, func)
+            except Exception:
+                continue
+            if not targets:
+                continue
+            sigs = {(tuple(t.params), bool(t.vararg), bool(t.kwarg)) for t in targets}
+            if len(sigs) != 1:
+                continue
+            params, va, kwa = sigs.pop()
+            if va or kwa:
+                continue
+            kw = dict(e.value[3])
+            pos = list(e.value[2])
+            for pname in params[len(pos):]:
+                if pname in kw:
+                    pos.append(kw.pop(pname))
+                else:
+                    break
+            if not kw:
+                e.value = ("call", e.value[1], tuple(pos), ())
+    return run
